@@ -37,13 +37,38 @@ func (r mrep) String() string {
 
 // runMouse feeds a history of reports (with optional rune tokens between)
 // and compares with the independent protocol model.
-func runMouse(cfg hx.Config, ch *simrt.Chooser, reps []mrep, text []string, cuts []int, strictOnly bool) (*hx.Failure, error) {
+// mousePre is the history before the reports arrive: the window changed
+// size while the screen was suspended (W2 > 0: no notification is delivered
+// for that; the reports come before any Show), and/or Suspend is called
+// while the reports are being read (Race: after Yields scheduling points).
+type mousePre struct {
+	W2, H2 int
+	Race   bool
+	Yields int
+}
+
+func runMouse(cfg hx.Config, ch *simrt.Chooser, reps []mrep, text []string, cuts []int, strictOnly bool, pres ...mousePre) (*hx.Failure, error) {
+	var pre mousePre
+	if len(pres) > 0 {
+		pre = pres[0]
+	}
 	w, err := newIW(cfg, ch)
 	if err != nil {
 		return nil, err
 	}
 	mm := &mouseModel{w: cfg.W, h: cfg.H}
-	w.S.Note(hx.Fingerprint(cfg, reps, text, cuts))
+	w.S.Note(hx.Fingerprint(cfg, reps, text, cuts, pre))
+	var preErr error
+	if pre.W2 > 0 {
+		w.S.Spawn("resizer", func() {
+			_ = w.Scr.Suspend()
+			w.Tty.Resize(pre.W2, pre.H2)
+			preErr = w.Scr.Resume()
+		})
+		w.S.RunUntil(nil, w.S.Now()+1)
+		w.Tty.Faults.Inc("resized_while_suspended")
+		mm.w, mm.h = pre.W2, pre.H2
+	}
 	var in []byte
 	var want []string
 	var strict []bool
@@ -68,13 +93,33 @@ func runMouse(cfg hx.Config, ch *simrt.Chooser, reps []mrep, text []string, cuts
 		isCut[c%len(in)] = true
 	}
 	start := 0
+	var chunks [][]byte
 	for i := 1; i <= len(in); i++ {
 		if i == len(in) || isCut[i] {
-			w.feedHold(in[start:i])
+			if pre.Race {
+				chunks = append(chunks, in[start:i])
+			} else {
+				w.feedHold(in[start:i])
+			}
 			start = i
 			if i < len(in) {
 				w.Tty.Faults.Inc("read_split")
 			}
+		}
+	}
+	if pre.Race {
+		// Suspend lands while the reports are being read and decoded: what is
+		// delivered is a prefix of what a quiet screen would deliver
+		w.Tty.FeedChunks(chunks)
+		w.S.Spawn("suspender", func() {
+			for i := 0; i < pre.Yields; i++ {
+				simrt.Yield("suspender.wait")
+			}
+			_ = w.Scr.Suspend()
+		})
+		w.Tty.Faults.Inc("suspend_during_input")
+		if st := w.S.RunUntil(nil, w.S.Now()+1); st == simrt.Budget {
+			w.stall = true
 		}
 	}
 	held := len(w.evs)
@@ -90,10 +135,38 @@ func runMouse(cfg hx.Config, ch *simrt.Chooser, reps []mrep, text []string, cuts
 			f = &hx.Failure{Tag: tag, Msg: fmt.Sprintf("%s %dx%d reports [%s] text %q cuts %v: ", cfg.Term, cfg.W, cfg.H, strings.Join(rs, " | "), text, cuts) + fmt.Sprintf(format, args...)}
 		}
 	}
-	if len(got) != len(want) {
+	if preErr != nil {
+		mk("C12/pos", "Resume failed: %v", preErr)
+	}
+	// compatible: the delivered event is an acceptable decoding of expectation i
+	compatible := func(g string, i int) bool {
+		if g == want[i] {
+			return true
+		}
+		var wx, wy, wb, wm, gx, gy, gb, gm int
+		n1, _ := fmt.Sscanf(want[i], "mouse:%d,%d:%d:%d", &wx, &wy, &wb, &wm)
+		n2, _ := fmt.Sscanf(g, "mouse:%d,%d:%d:%d", &gx, &gy, &gb, &gm)
+		return n1 == 4 && n2 == 4 && wx == gx && wy == gy && wm == gm && (wb == gb || !strict[i])
+	}
+	if pre.Race {
+		// Suspend discards input that is in flight: what is delivered is a
+		// subsequence, in order, of what a quiet screen would deliver - and
+		// every delivered report is decoded as it would have been
+		i := 0
+		for _, g := range got {
+			for i < len(want) && !compatible(g, i) {
+				i++
+			}
+			if i == len(want) {
+				mk("C12/pos", "delivered %s while Suspend was in progress, which is not the decoding of any (remaining) report; expected a subsequence of %v, delivered %v", g, want, got)
+				break
+			}
+			i++
+		}
+	} else if len(got) != len(want) {
 		mk("C12/pos", "expected %d events %v, delivered %d: %v", len(want), want, len(got), got)
 	} else {
-		for i := range want {
+		for i := range got {
 			if got[i] == want[i] {
 				continue
 			}
@@ -116,7 +189,7 @@ func runMouse(cfg hx.Config, ch *simrt.Chooser, reps []mrep, text []string, cuts
 			}
 		}
 	}
-	if held != len(got) && f == nil {
+	if held != len(got) && f == nil && !pre.Race {
 		mk("C12/pos", "only %d of %d events were delivered before any time passed (complete reports need no timeout)", held, len(got))
 	}
 	hx.St.Record(w.S, w.Tty.Faults.Map(), func() interface{} {
@@ -258,15 +331,25 @@ func TestC12(t *testing.T) {
 		for i := 0; i < nc; i++ {
 			cuts = append(cuts, rapid.IntRange(1, 120).Draw(rt, "cut"))
 		}
-		ch := hx.DrawChooser(rt, 40)
+		var pre mousePre
+		switch rapid.IntRange(0, 5).Draw(rt, "history") {
+		case 0:
+			pre.W2, pre.H2 = rapid.IntRange(1, 24).Draw(rt, "w2"), rapid.IntRange(1, 12).Draw(rt, "h2")
+		case 1:
+			pre.Race, pre.Yields = true, rapid.IntRange(0, 12).Draw(rt, "yields")
+		case 2:
+			pre.W2, pre.H2 = rapid.IntRange(1, 24).Draw(rt, "w2"), rapid.IntRange(1, 12).Draw(rt, "h2")
+			pre.Race, pre.Yields = true, rapid.IntRange(0, 12).Draw(rt, "yields")
+		}
+		ch := hx.DrawChooser(rt, 60)
 		hx.Arm("C12")
 		defer hx.Disarm()
-		f, err := runMouse(cfg, ch, reps, text, cuts, false)
+		f, err := runMouse(cfg, ch, reps, text, cuts, false, pre)
 		if err != nil {
 			rt.Fatalf("HARNESS: %v", err)
 		}
 		if f != nil {
-			hx.WriteTrace("C12", f, map[string]interface{}{"config": cfg.String(), "cuts": cuts}, nil, nil, 0)
+			hx.WriteTrace("C12", f, map[string]interface{}{"config": cfg.String(), "cuts": cuts, "history": fmt.Sprintf("%+v", pre)}, nil, nil, 0)
 			rt.Fatalf("VIOLATION %s: %s", f.Tag, f.Msg)
 		}
 	})
